@@ -1,2 +1,11 @@
 import C2paModel.Model.C07
-def main : IO Unit := C2pa.runDriver C2pa.C07.handle
+import C2paModel.Model.C09Bmff
+/-- C09 driver: the embedding algebra ops of Model/C07 plus the BMFF offset-table ops
+(`adjoff`, `bmffadj`, `oracle`) of Model/C09Bmff. -/
+def c09Handle (toks : List String) : String :=
+  match toks with
+  | "adjoff" :: _ => C2pa.C09Bmff.handle toks
+  | "bmffadj" :: _ => C2pa.C09Bmff.handle toks
+  | "oracle" :: _ => C2pa.C09Bmff.handle toks
+  | _ => C2pa.C07.handle toks
+def main : IO Unit := C2pa.runDriver c09Handle
